@@ -8,7 +8,7 @@ from cryptography.hazmat.primitives.asymmetric import rsa, ec, ed25519, ed448, x
 from cryptography.hazmat.primitives import serialization as ser
 
 out = {"RSA": [], "EC_special": {}, "OKP_special": {}}
-for bits, n in [(1024, 2), (2048, 4), (3072, 1), (4096, 1)]:
+for bits, n in [(1024, 2), (2048, 4), (3072, 1), (4096, 1), (1031, 1), (2047, 1), (2049, 1), (3071, 1)]:  # moduli whose length is not a multiple of 8 bits too
     for _ in range(n):
         k = rsa.generate_private_key(65537, bits)
         pn = k.private_numbers()
